@@ -9,6 +9,7 @@ A second case kind runs 2–16 threads (labelled support run: C15c is the theore
 """
 import hashlib
 import itertools
+import signal
 import sys
 import threading
 
@@ -54,6 +55,32 @@ class ProbeLock(object):
 
     def __exit__(self, *a):
         self.release()
+
+
+class Hang(BaseException):
+    pass
+
+
+class time_limit(object):
+    """Safety net: a blocking call that never returns (a lock left held, say) becomes a `Hang` instead of a hung check.
+    Lock.acquire in the main thread is interruptible by signals."""
+
+    def __init__(self, seconds):
+        self.seconds = seconds
+
+    def _fire(self, *a):
+        raise Hang()
+
+    def __enter__(self):
+        self.usable = threading.current_thread() is threading.main_thread()
+        if self.usable:
+            self.old = signal.signal(signal.SIGALRM, self._fire)
+            signal.alarm(self.seconds)
+
+    def __exit__(self, *a):
+        if self.usable:
+            signal.alarm(0)
+            signal.signal(signal.SIGALRM, self.old)
 
 
 def sha(text):
@@ -120,19 +147,22 @@ def fresh_tables(lib, exprs, trees):
             ok, ce = 1, None
             for th in trees:
                 t = lib.tree(th)
-                lib.clear()
+                lib.clear(ProbeLock())
                 try:
                     x = lib.XPathExpression(e)
-                except Exception as ex:
+                except (Exception, SelfDeadlock) as ex:
                     ok, ce = 0, type(ex).__name__
                     row.append('c' + ce)
                     continue
-                row.append(lib.canon(t, lambda: x.evaluate(t[0])))
+                try:
+                    row.append(lib.canon(t, lambda: x.evaluate(t[0])))
+                except SelfDeadlock:
+                    row.append('deadlock')
             if not trees:
-                lib.clear()
+                lib.clear(ProbeLock())
                 try:
                     lib.XPathExpression(e)
-                except Exception as ex:
+                except (Exception, SelfDeadlock) as ex:
                     ok, ce = 0, type(ex).__name__
             oks.append(ok)
             cerr.append(ce)
@@ -422,7 +452,34 @@ class Check(PropCheck):
             pass
         return fs
 
+    @staticmethod
+    def _compress(d):
+        """Drop the expressions and trees no event uses (renumbering)."""
+        evs = d['events'] if d['kind'] == 'hist' else [e for th in d['threads'] for e in th]
+        ue = sorted(set(e[1] for e in evs if e[0] != 'ev'))
+        ut = sorted(set(e[2] for e in evs if e[0] != 'new'))
+        if len(ue) == len(d['exprs']) and len(ut) == len(d['trees']):
+            return None
+        me = {e: i for i, e in enumerate(ue)}
+        mt = {t: i for i, t in enumerate(ut)}
+
+        def ren(e):
+            if e[0] == 'new':
+                return ['new', me[e[1]]]
+            if e[0] == 'ev':
+                return ['ev', e[1], mt[e[2]]]
+            return ['q', me[e[1]], mt[e[2]]] + list(e[3:])
+        out = dict(d, exprs=[d['exprs'][e] for e in ue], trees=[d['trees'][t] for t in ut])
+        if d['kind'] == 'hist':
+            out['events'] = [ren(e) for e in d['events']]
+        else:
+            out['threads'] = [[ren(e) for e in th] for th in d['threads']]
+        return out
+
     def shrink(self, d):
+        c = self._compress(d)
+        if c is not None and len(d['events'] if d['kind'] == 'hist' else d['threads']) <= 12:
+            yield c
         if d['kind'] == 'hist':
             evs = d['events']
             n = len(evs)
@@ -467,8 +524,9 @@ class Check(PropCheck):
             for ev in d['events']:
                 flags = ''
                 try:
-                    out = do_event(lib, d, cerr, slots, ev)
-                except SelfDeadlock:
+                    with time_limit(20):
+                        out = do_event(lib, d, cerr, slots, ev)
+                except (SelfDeadlock, Hang):
                     out = 'deadlock'
                     lib.cache.cacheLock = ProbeLock()
                 if lib.cache.cacheLock.locked():
@@ -479,21 +537,50 @@ class Check(PropCheck):
                              len(lib.cache.cachedCompiledExpressions)))
         return rows, bound
 
+    _thread_memo = (None, None)
+
     def run_threads(self, d):
+        """One concurrent run per case (shared by `impl` and `oracle`: the run is not deterministic)."""
+        import json
+        k = json.dumps(d, sort_keys=True)
+        if Check._thread_memo[0] == k:
+            return Check._thread_memo[1]
+        r = self._run_threads(d)
+        Check._thread_memo = (k, r)
+        return r
+
+    def _run_threads(self, d):
+        import time
         lib = self.lib
         oks, cerr, results = self._tables(d)
-        keymap = self._keymap(d)
         outs = [[] for _ in d['threads']]
         errors = []
+        bad_points = []          # invariant violations seen between events (checked under the lock)
         with Patched(lib, d['bound'], threading.Lock()) as bound:
             barrier = threading.Barrier(len(d['threads']))
+            c = lib.cache
+            lock = c.cacheLock
+
+            def check_point(i, n):
+                if not lock.acquire(timeout=5):
+                    return
+                try:
+                    recent = list(c.recentCachedExpressionStrs)
+                    keys = list(c.cachedCompiledExpressions)
+                finally:
+                    lock.release()
+                if len(recent) > bound[0] or len(keys) > bound[0]:
+                    bad_points.append(('bound', i, n, len(recent), len(keys)))
+                elif len(set(recent)) != len(recent) or set(recent) != set(keys):
+                    bad_points.append(('inv', i, n, len(recent), len(keys)))
 
             def work(i, evs):
                 slots = []
                 try:
                     barrier.wait(10)
-                    for ev in evs:
+                    for n, ev in enumerate(evs):
                         outs[i].append(do_event(lib, d, cerr, slots, ev))
+                        check_point(i, n)
                 except BaseException as e:      # noqa
                     errors.append('%d:%s' % (i, type(e).__name__))
             old = sys.getswitchinterval()
@@ -502,18 +589,17 @@ class Check(PropCheck):
                 ths = [threading.Thread(target=work, args=(i, evs), daemon=True) for i, evs in enumerate(d['threads'])]
                 for t in ths:
                     t.start()
-                import time
-                deadline = time.time() + 30
+                deadline = time.time() + 8
                 for t in ths:
                     t.join(max(0.0, deadline - time.time()))
                 hung = [i for i, t in enumerate(ths) if t.is_alive()]
             finally:
                 sys.setswitchinterval(old)
-            c = lib.cache
             recent = list(c.recentCachedExpressionStrs)
             keys = list(c.cachedCompiledExpressions)
-            inv = [len(recent) <= bound[0], len(keys) <= bound[0], len(set(recent)) == len(recent),
-                   set(recent) == set(keys), not c.cacheLock.locked()]
+            inv = [len(recent) <= bound[0] and not any(b[0] == 'bound' for b in bad_points), len(keys) <= bound[0],
+                   len(set(recent)) == len(recent) and not any(b[0] == 'inv' for b in bad_points),
+                   set(recent) == set(keys), not lock.locked()]
         return outs, inv, hung, errors, bound
 
     def impl(self, d):
